@@ -1,6 +1,6 @@
-(* Where the hypothesis "header + payload < 2^32" of C14 comes from: uint32 msgSize = SizeOfHeader + header->PayloadSize wraps.
-   For PayloadSize = 2^32 - 8 the message size becomes 0: HandleUnfragmentedData reports a message of 0 bytes and calls
-   OnDataReceived again with the SAME data -- the model runs out of every fuel (the C++ recursion has no end). *)
+(* The two inputs that crashed the unrepaired code (uint32 msgSize = SizeOfHeader + PayloadSize wrapped): what the repaired
+   code does with them.  (History: K-C14-1, 8 bytes AA 55 01 00 F8 FF FF FF -> recursion without end; K-C14-2, preamble FF FF,
+   chunks FF FF | FF FF FF FF FF FF 00 -> 4 GiB read from the received data.) *)
 From Coq Require Import String Ascii List Bool Arith NArith ZArith Lia.
 From KV Require Import Lib.Str Lib.ByteSeq Gen.CxxConn Model.Conn Proofs.ByteSeqProofs.
 Import ListNotations.
@@ -9,32 +9,28 @@ Open Scope list_scope.
 
 Definition os_p0 : byte := ascii_of_N 170.
 Definition os_p1 : byte := ascii_of_N 85.
-(* AA 55 | 01 00 | F8 FF FF FF : the header of a message with 2^32 - 8 payload bytes *)
+(* AA 55 | 01 00 | F8 FF FF FF : the header of a "message" with 2^32 - 8 payload bytes *)
 Definition oversize_header : list byte :=
   [os_p0; os_p1; ascii_of_N 1; ascii_of_N 0; ascii_of_N 248; ascii_of_N 255; ascii_of_N 255; ascii_of_N 255].
+(* a real message AA 55 | 02 00 | 01 00 00 00 | 77 *)
+Definition os_msg : list byte :=
+  [os_p0; os_p1; ascii_of_N 2; ascii_of_N 0; ascii_of_N 1; ascii_of_N 0; ascii_of_N 0; ascii_of_N 0; ascii_of_N 119].
 
 Lemma oversize_header_fields :
-  len oversize_header = size_of_header /\ payload_size oversize_header = 2 ^ 32 - size_of_header.
-Proof. split; vm_compute; reflexivity. Qed.
+  len oversize_header = size_of_header /\ payload_size oversize_header = 2 ^ 32 - size_of_header /\
+  oversize (payload_size oversize_header) = true.
+Proof. repeat split; vm_compute; reflexivity. Qed.
 
-Lemma oversize_handle rec :
-  handle os_p0 os_p1 rec init oversize_header = deliver [] (rec init oversize_header).
-Proof. reflexivity. Qed.
+(* unfragmented path: the header is skipped, nothing is delivered, nothing stays pending; a message behind it is delivered *)
+Lemma oversize_header_discarded :
+  feed os_p0 os_p1 init [oversize_header] = Done init [] /\
+  feed os_p0 os_p1 init [oversize_header ++ os_msg] = Done init [os_msg] /\
+  feed os_p0 os_p1 init [firstn 3 oversize_header; skipn 3 oversize_header ++ os_msg] = Done init [os_msg].
+Proof. repeat split; vm_compute; reflexivity. Qed.
 
-Lemma oversize_step f :
-  on_data os_p0 os_p1 (S f) init oversize_header = deliver [] (on_data os_p0 os_p1 f init oversize_header).
-Proof.
-  cbn [on_data].
-  change (len oversize_header =? 0) with false. change (len (buf init) =? 0) with true.
-  change (len oversize_header =? 1) with false.
-  change (find_preamble os_p0 os_p1 oversize_header) with (Some 0). cbv beta iota zeta.
-  change (drop 0 oversize_header) with oversize_header.
-  apply oversize_handle.
-Qed.
-
-Lemma oversize_diverges : forall fuel, exists ds, on_data os_p0 os_p1 fuel init oversize_header = Fail OutOfFuel ds.
-Proof.
-  induction fuel as [| f [ds IH]].
-  - exists []. reflexivity.
-  - exists ([] :: ds). rewrite oversize_step, IH. reflexivity.
-Qed.
+(* fragmented path with the preamble FF FF *)
+Definition ff : byte := ascii_of_N 255.
+Lemma oversize_garbage_discarded :
+  feed ff ff init [[ff; ff]; [ff; ff; ff; ff; ff; ff; Ascii.zero]]
+  = Done (mkSt [ff; ff; ff; ff; ff; ff; Ascii.zero] 0) [].
+Proof. vm_compute. reflexivity. Qed.
